@@ -16,7 +16,10 @@ use proptest::prelude::*;
 use refmodel::wire::{RHop, RInfo, RStd, encode_std_path};
 use sciparse::{
     core::view::View,
-    dataplane_path::{standard::view::StandardPathView, view::ScionDpPathView},
+    dataplane_path::{
+        standard::view::StandardPathView,
+        view::{ScionDpPathView, ScionDpPathViewExt},
+    },
     identifier::isd_asn::IsdAsn,
     path::{
         ScionPath,
